@@ -38,7 +38,7 @@ Section Theorems.
   Local Notation okb := (tfile_okb c p tp crc decompress fname ufc verify ri).
   Local Notation getb := (db_get_bytes c p mp tp crc decompress fname ufc verify).
   Local Notation bfull := (bfull c p mp tp crc decompress fname ufc verify o).
-  Local Notation fsafe := (filter_safe c p tp crc compress decompress fname ufc verify o).
+  Local Notation tfilt := (table_filter_ok c p tp crc compress decompress fname ufc verify o).
   Local Notation fsz st := (file_size (files_of st)).
   Local Notation blen := (bytes_len c p tp crc compress o).
   Local Notation sizes_ok := (write_sizes_ok c p tp crc compress o).
@@ -63,7 +63,7 @@ Section Theorems.
     bfull st -> bs_frozen st = Some d ->
     (forall f, In f (files_of st) -> tf_num f <> num) ->
     (forall x, In x (all_entries (absS st)) -> e_seq x <= keyMaxSeq p) ->
-    (mem_pairs mp d <> [] -> sizes_ok (mem_pairs mp d) = true) -> fsafe ->
+    (mem_pairs mp d <> [] -> sizes_ok (mem_pairs mp d) = true) -> tfilt (mem_pairs mp d) ->
     exists st', b_flush c p mp tp crc compress decompress fname ufc verify o num st = Some st' /\ bfull st' /\
       st_mem (absS st') = st_mem (absS st) /\ st_frozen (absS st') = [] /\
       (mem_pairs mp d = [] -> st_levels (absS st') = st_levels (absS st)) /\
@@ -79,7 +79,7 @@ Section Theorems.
     intros B Hfz Hfresh Hseq Hsz Hfl.
     destruct (flush_step c ok p pok seek_val mp mpok tp tp_ok crc crc_bound compress decompress codec_ok compress_ne fname ufc verify o ri_pos
                 st d num B Hfz Hfresh Hseq Hsz) as (st' & E & B' & SE & Em & Ef & El & Hn).
-    { destruct Hfl as [Hn|Hf]; [left; exact Hn|right; intros f Hw; apply (Hf num _ f Hw)]. }
+    { destruct Hfl as [Hn|Hf]; [left; exact Hn|right; intros f Hw; apply (Hf num f Hw)]. }
     exists st'. split; [exact E|]. split; [exact B'|].
     split; [cbn [ReadPath.abs st_mem]; rewrite Em; reflexivity|]. split; [cbn [ReadPath.abs st_frozen]; rewrite Ef; reflexivity|].
     split; [intros Q; cbn [ReadPath.abs st_levels]; rewrite (El Q); reflexivity|]. split; [exact Hn|]. split; [exact SE|].
@@ -107,14 +107,14 @@ Section Theorems.
 
   Theorem compact_bytes st lvl seed os nums minSeq :
     bfull st -> seed_tables (st_levels (absS st)) lvl seed <> [] -> minSeq < keyMaxSeq p ->
-    NoDup nums -> (forall n f, In n nums -> In f (files_of st) -> tf_num f <> n) -> fsafe ->
+    NoDup nums -> (forall n f, In n nums -> In f (files_of st) -> tf_num f <> n) ->
     exists cm, new_compaction c (fsz st) (st_levels (absS st)) lvl (wo_expandLimit o lvl) (seed_tables (st_levels (absS st)) lvl seed) = POk cm /\
       forall s',
         let deeper := skipn (lvl + 2) (st_levels (absS st)) in
         transact c p (fsz st) (c_gp cm) (wo_gpOverlaps o lvl) deeper minSeq (wo_strict o) (wo_tableSize o (S lvl)) blen os
                  (map IGood (merge_inputs c (c_t0 cm ++ c_t1 cm))) (bst0 deeper) = (s', TDone) ->
         length nums = length (fin s') ->
-        Forall (fun ch => sizes_ok (chunk_kvs ch) = true) (fin s') ->
+        Forall (fun ch => sizes_ok (chunk_kvs ch) = true /\ tfilt (chunk_kvs ch)) (fin s') ->
         exists st', b_compact c p tp crc compress decompress fname ufc verify o lvl seed os nums minSeq st = Some st' /\ bfull st' /\
           st_mem (absS st') = st_mem (absS st) /\ st_frozen (absS st') = st_frozen (absS st) /\
           outputs_of c p cm minSeq deeper (fin s') /\
@@ -122,9 +122,9 @@ Section Theorems.
           (forall x, In x (all_entries (absS st')) -> In x (all_entries (absS st))) /\
           forall k s, wf_bytes k -> minSeq <= s -> s <= keyMaxSeq p -> bapi (getb st' k s) = bapi (getb st k s).
   Proof.
-    intros B Hne Hms Hnd Hfresh Hfl.
+    intros B Hne Hms Hnd Hfresh.
     destruct (compact_step c ok p pok seek_val mp mpok tp tp_ok crc crc_bound compress decompress codec_ok compress_ne fname ufc verify o ri_pos
-                st lvl seed os nums minSeq B Hne Hms Hnd Hfresh Hfl) as (cm & Ecm & H).
+                st lvl seed os nums minSeq B Hne Hms Hnd Hfresh) as (cm & Ecm & H).
     exists cm. split; [exact Ecm|]. intros s' deeper Htr Hlen Hsz.
     destruct (H s' Htr Hlen Hsz) as (st' & E & B' & Em & Ef & Ho & Efin & Hincl & Hreads).
     exists st'. split; [exact E|]. split; [exact B'|].
